@@ -13,6 +13,9 @@ THEOREM = 'Props/C10.list'
 
 
 def close(a, b, tol=1e-9):
+	import math as _m
+	if not (_m.isfinite(float(a)) and _m.isfinite(float(b))):
+		return float(a) == float(b)          # an infinite value is close to nothing finite
 	return abs(float(a) - float(b)) <= tol * max(1.0, abs(float(a)), abs(float(b)))
 
 
